@@ -35,45 +35,122 @@ theorem regs_plain_cons (d : Obj) (r : Stack) (core : Regs) :
     Stack.regs (.plain d :: r) core = Stack.regs r core := by
   simp [Stack.regs]
 
-/-- one iteration with the body `{{ x }}` -/
-theorem forStep_print (fuel : Nat) (env : Env) (x : Str) (len : Nat) (parent v : V) (i : Nat)
+/-- the frame of iteration `i` of `len` over element `v` -/
+def iterRoot (x : Str) (len : Nat) (parent v : V) (i : Nat) : Obj :=
+  objInsert (objInsert [] "forloop".toList (forloopObj i len parent)) x v
+
+/-- `body` is a *pure printer* in the frame `root`: pushed on ANY runtime without pending interrupt
+it succeeds, writes `s`, and leaves the runtime exactly as it was -/
+def WritesIn (body : M Unit) (root : Obj) (s : Str) : Prop :=
+  ∀ (rt : Rt) (w : W), rt.regs.interrupt = none → w.budget = none →
+    ∃ w', body { rt with layers := [Layer.plain root] ++ rt.layers } w
+        = (.ok (), { rt with layers := [Layer.plain root] ++ rt.layers }, w') ∧
+      w'.budget = none ∧ w'.text = w.text ++ s
+
+/-- one iteration of a loop whose body is a pure printer -/
+theorem forStep_pure (x : Str) (len : Nat) (parent v : V) (i : Nat) (body : M Unit) (s : Str)
+    (hbody : WritesIn body (iterRoot x len parent v i) s)
     (rt : Rt) (w : W) (hi : rt.regs.interrupt = none) (hb : w.budget = none) :
-    ∃ rt' w', forStep x len parent (renderList (renderN (fuel + 1) env) [.output (.var x []) []]) v i rt w
-        = (.ok none, rt', w') ∧ rt'.regs.interrupt = none ∧ w'.budget = none ∧ w'.text = w.text ++ v.render := by
-  obtain ⟨w', hw, hb', ht⟩ := write_text w v.render hb
+    ∃ rt' w', forStep x len parent body v i rt w = (.ok none, rt', w') ∧
+      rt'.regs.interrupt = none ∧ w'.budget = none ∧ w'.text = w.text ++ s := by
+  obtain ⟨w', hrun, hb', ht⟩ := hbody rt w hi hb
   refine ⟨rt.setRegs { rt.regs with interrupt := none }, w', ?_, by rw [Rt.regs_setRegs], hb', ht⟩
   unfold forStep M.inFrames
-  generalize hroot : objInsert (objInsert [] "forloop".toList (forloopObj i len parent)) x v = root
-  have hget : Stack.get (.plain root :: rt.layers) [.str x] = .ok v := by
-    rw [← hroot]; exact get_top_plain _ x v _
+  unfold iterRoot at hrun
+  generalize hroot : objInsert (objInsert [] "forloop".toList (forloopObj i len parent)) x v = root at hrun
   have hregs : ({ rt with layers := [Layer.plain root] ++ rt.layers } : Rt).regs = rt.regs := by
     simp [Rt.regs, Stack.regs]
-  have hchain : evalChain env (Layer.plain root :: rt.layers) (.var x []) [] = .ok v := by
-    simp [evalChain, Expr.eval, evalIdx, hget, bind, Res.bind, List.foldlM, pure]
-  have hregs' : ({ layers := Layer.plain root :: rt.layers, core := rt.core } : Rt).regs = rt.regs := by
-    simp [Rt.regs, Stack.regs]
-  have hbody : renderList (renderN (fuel + 1) env) [.output (.var x []) []]
-      { rt with layers := [Layer.plain root] ++ rt.layers } w
-      = (.ok (), { rt with layers := [Layer.plain root] ++ rt.layers }, w') := by
-    simp only [renderList, renderN, List.cons_append, List.nil_append]
-    simp [M.run_bind, hchain, M.emit, hw, hregs', hi]
-  simp only [M.run_bind, hbody, takeInterruptM, M.run_getRegs, hregs, M.run_setRegs, M.run_pure, hi]
+  simp only [M.run_bind, hrun, takeInterruptM, M.run_getRegs, hregs, M.run_setRegs, M.run_pure, hi]
   simp [Rt.setRegs, Stack.setRegs]
 
-/-- the whole loop over `items` with the body `{{ x }}` -/
-theorem loop_print (fuel : Nat) (env : Env) (x : Str) (len : Nat) (parent : V) (items : List V) :
+/-- the whole loop: the outputs of the iterations, in order, with positions `i, i+1, …` -/
+theorem loop_pure (x : Str) (len : Nat) (parent : V) (body : M Unit) (f : V → Nat → Str)
+    (hbody : ∀ v i, WritesIn body (iterRoot x len parent v i) (f v i)) (items : List V) :
     ∀ (i : Nat) (rt : Rt) (w : W), rt.regs.interrupt = none → w.budget = none →
-    ∃ rt' w', loopItems (forStep x len parent (renderList (renderN (fuel + 1) env) [.output (.var x []) []])) items i rt w
-        = (.ok (), rt', w') ∧ rt'.regs.interrupt = none ∧ w'.budget = none ∧
-        w'.text = w.text ++ (items.map V.render).flatten := by
+    ∃ rt' w', loopItems (forStep x len parent body) items i rt w = (.ok (), rt', w') ∧
+      rt'.regs.interrupt = none ∧ w'.budget = none ∧
+      w'.text = w.text ++ ((items.zipIdx i).map fun (v, j) => f v j).flatten := by
   induction items with
   | nil => intro i rt w hi hb; exact ⟨rt, w, by simp [loopItems], hi, hb, by simp⟩
   | cons v r ih =>
     intro i rt w hi hb
-    obtain ⟨rt1, w1, h1, hi1, hb1, ht1⟩ := forStep_print fuel env x len parent v i rt w hi hb
+    obtain ⟨rt1, w1, h1, hi1, hb1, ht1⟩ := forStep_pure x len parent v i body (f v i) (hbody v i) rt w hi hb
     obtain ⟨rt2, w2, h2, hi2, hb2, ht2⟩ := ih (i + 1) rt1 w1 hi1 hb1
-    refine ⟨rt2, w2, ?_, hi2, hb2, by simp [ht2, ht1]⟩
+    refine ⟨rt2, w2, ?_, hi2, hb2, by simp [ht2, ht1, List.zipIdx_cons]⟩
     simp only [loopItems, M.run_bind, h1]
     simpa using h2
+
+/-- the body `{{ x }}` prints the element -/
+theorem print_var_writes (fuel : Nat) (env : Env) (x : Str) (len : Nat) (parent v : V) (i : Nat) :
+    WritesIn (renderList (renderN (fuel + 1) env) [.output (.var x []) []]) (iterRoot x len parent v i) v.render := by
+  intro rt w hi hb
+  obtain ⟨w', hw, hb', ht⟩ := write_text w v.render hb
+  refine ⟨w', ?_, hb', ht⟩
+  unfold iterRoot
+  generalize hroot : objInsert (objInsert [] "forloop".toList (forloopObj i len parent)) x v = root
+  have hget : Stack.get (.plain root :: rt.layers) [.str x] = .ok v := by
+    rw [← hroot]; exact get_top_plain _ x v _
+  have hchain : evalChain env (Layer.plain root :: rt.layers) (.var x []) [] = .ok v := by
+    simp [evalChain, Expr.eval, evalIdx, hget, bind, Res.bind, List.foldlM, pure]
+  have hregs' : ({ layers := Layer.plain root :: rt.layers, core := rt.core } : Rt).regs = rt.regs := by
+    simp [Rt.regs, Stack.regs]
+  simp only [renderList, renderN, List.cons_append, List.nil_append]
+  simp [M.run_bind, hchain, M.emit, hw, hregs', hi]
+
+/-- the whole loop over `items` with the body `{{ x }}` -/
+theorem loop_print (fuel : Nat) (env : Env) (x : Str) (len : Nat) (parent : V) (items : List V)
+    (i : Nat) (rt : Rt) (w : W) (hi : rt.regs.interrupt = none) (hb : w.budget = none) :
+    ∃ rt' w', loopItems (forStep x len parent (renderList (renderN (fuel + 1) env) [.output (.var x []) []])) items i rt w
+        = (.ok (), rt', w') ∧ rt'.regs.interrupt = none ∧ w'.budget = none ∧
+        w'.text = w.text ++ (items.map V.render).flatten := by
+  obtain ⟨rt', w', h, h1, h2, h3⟩ := loop_pure x len parent _ (fun v _ => v.render)
+    (fun v j => print_var_writes fuel env x len parent v j) items i rt w hi hb
+  refine ⟨rt', w', h, h1, h2, ?_⟩
+  rw [h3]
+  congr 2
+  clear h h3
+  induction items generalizing i with
+  | nil => rfl
+  | cons a r ih => simp [List.zipIdx_cons, ih (i + 1)]
+
+
+/-- looking up `forloop.<field>` in an iteration frame whose loop variable is not itself called
+`forloop` -/
+theorem get_forloop_field (x : Str) (len : Nat) (parent v : V) (i : Nat) (k : Str) (fv : V) (below : Stack)
+    (hx : x ≠ "forloop".toList)
+    (hf : ∃ kvs, forloopObj i len parent = .obj kvs ∧ objGet kvs k = some fv) :
+    Stack.get (.plain (iterRoot x len parent v i) :: below) [.str "forloop".toList, .str k] = .ok fv := by
+  obtain ⟨kvs, hobj, hk⟩ := hf
+  have hg : objGet (iterRoot x len parent v i) "forloop".toList = some (forloopObj i len parent) := by
+    unfold iterRoot
+    rw [C18.objInsert_get_other _ _ _ _ (Ne.symm hx), C18.objInsert_get]
+  have hc : objContains (iterRoot x len parent v i) "forloop".toList = true := by
+    have := C18.objGet_isSome_iff_contains (iterRoot x len parent v i) "forloop".toList
+    rw [hg] at this; simpa using this.symm
+  have ht : tryFind (.obj (iterRoot x len parent v i)) [.str "forloop".toList, .str k] = some fv := by
+    simp only [tryFind, augGet, Sc.render, hg, hobj, hk]
+  simp only [Stack.get, pathKey, List.head?, Option.map, Sc.render, hc, if_true, find, ht]
+
+/-- a body `{{ r.k }}` prints what the path resolves to in the frame -/
+theorem print_path2_writes (fuel : Nat) (env : Env) (root : Obj) (r k : Str) (fv : V)
+    (hget : ∀ below, Stack.get (.plain root :: below) [.str r, .str k] = .ok fv) :
+    WritesIn (renderList (renderN (fuel + 1) env) [.output (.var r [.lit (.sc (.str k))]) []]) root fv.render := by
+  intro rt w hi hb
+  obtain ⟨w', hw, hb', ht⟩ := write_text w fv.render hb
+  refine ⟨w', ?_, hb', ht⟩
+  have hchain : evalChain env (Layer.plain root :: rt.layers) (.var r [.lit (.sc (.str k))]) [] = .ok fv := by
+    simp [evalChain, Expr.eval, evalIdx, hget rt.layers, bind, Res.bind, List.foldlM, pure]
+  have hregs' : ({ layers := Layer.plain root :: rt.layers, core := rt.core } : Rt).regs = rt.regs := by
+    simp [Rt.regs, Stack.regs]
+  simp only [renderList, renderN, List.cons_append, List.nil_append]
+  simp [M.run_bind, hchain, M.emit, hw, hregs', hi]
+
+/-- the body `{{ forloop.<field> }}` prints that field of the truthful forloop object -/
+theorem print_forloop_field_writes (fuel : Nat) (env : Env) (x : Str) (len : Nat) (parent v : V) (i : Nat)
+    (k : Str) (fv : V) (hx : x ≠ "forloop".toList)
+    (hf : ∃ kvs, forloopObj i len parent = .obj kvs ∧ objGet kvs k = some fv) :
+    WritesIn (renderList (renderN (fuel + 1) env) [.output (.var "forloop".toList [.lit (.sc (.str k))]) []])
+      (iterRoot x len parent v i) fv.render :=
+  print_path2_writes fuel env _ _ k fv (fun below => get_forloop_field x len parent v i k fv below hx hf)
 
 end Liquid.ForNode
